@@ -1,5 +1,7 @@
-From BT Require Import Base.Util Base.Float Model.RTree Model.BBIFile Model.BigWigWrite Model.BBIRead
-  Proofs.BigWigQuery Proofs.ZoomLoop Proofs.ZoomInv Proofs.ZoomThms.
+From BT Require Import Base.Util Base.Float Generated.Consts Model.RTree Model.BBIFile Model.BigWigWrite Model.BBIRead
+  Proofs.RTreeAbs Proofs.RTreeBuild Proofs.RTreeCodec Proofs.RTreeLayout
+  Proofs.BigWigQuery Proofs.ZoomLoop Proofs.ZoomInv Proofs.ZoomThms Proofs.ZoomBwLevels Proofs.ZoomSections
+  Proofs.ZoomQuery Proofs.ZoomOld.
 From BT Require Properties.C07.
 Local Open Scope N_scope.
 Check (C07.C07_inner_loop_terminates : forall fp ips size chrom st cur has_next, 1 <= size ->
@@ -27,3 +29,46 @@ Check (C07.C07_stats : forall fp ips size chrom len vals st, 1 <= size -> wf_val
          (concat (zs_out st))).
 Check (C07.C07_contributions : forall s e vals p, In p (contribs s e vals) <->
   exists v, In v vals /\ p = (N.max (v_start v) s, N.min (v_end v) e, v_val v) /\ N.max (v_start v) s < N.min (v_end v) e).
+Check (C07.C07_sections_encoded : forall fp ips size chrom vals, 1 <= size -> 1 <= ips ->
+  exists st sds, zoom_chrom fp ips size chrom vals zstate0 = Ok st
+    /\ zoom_sections fp ips size chrom vals = Ok sds
+    /\ Forall (sec_wf ips) (zs_out st)
+    /\ length sds = length (zs_out st)
+    /\ data_bytes sds = flat_map (zrec_bytes fp) (concat (zs_out st))).
+Check (C07.C07_levels_increasing : forall fp o outs data_size pos zooms bytes hdrs,
+  build_levels fp o outs (zoom_sizes_single o) = Ok zooms ->
+  write_zooms_loop o data_size pos zooms None 0 = Ok (bytes, hdrs) ->
+  inc_from 0 (map zh_res hdrs) /\ Nlen hdrs <= MAX_ZOOM_LEVELS).
+Check (C07.C07_levels_increasing_two_pass : forall fp o outs sum data_size pos zooms bytes hdrs,
+  build_levels fp o outs (zoom_sizes_two_pass o sum (total_zoom_counts outs) data_size) = Ok zooms ->
+  write_zooms_two_pass o pos zooms = Ok (bytes, hdrs) ->
+  map zh_res hdrs = zoom_sizes_two_pass o sum (total_zoom_counts outs) data_size
+  /\ inc_from 0 (map zh_res hdrs) /\ Nlen hdrs <= MAX_ZOOM_LEVELS).
+Check (C07.C07_sections_ok : forall fp ips size chrom len vals st, 1 <= size -> wf_vals len vals ->
+  zoom_chrom fp ips size chrom vals zstate0 = Ok st -> Forall sec_ok (zs_out st)).
+Check (C07.C07_zoom_query_sections : forall q s e (secs : list (list zrec)), Forall sec_ok secs ->
+  flat_map (filter (zkeep q s e)) (filter (zsec_hit q s e) secs) = filter (zkeep q s e) (concat secs)).
+Check (C07.C07_zoom_query : forall fp (b ips dpos ipos : N) (rsecs : list (list zrec)) (sds : list sdata),
+  Forall sec_ok rsecs -> mapM (encode_zoom_section fp) rsecs = Ok sds ->
+  let secs := place dpos sds in
+  2 <= b <= 65535 -> secs <> [] -> sorted_starts (map sect_span secs) -> Forall sect_ok secs ->
+  exists bs levels, write_index b ips ipos secs = Ok (bs, levels)
+    /\ (ipos + Nlen bs <= U64 ->
+        forall pre post q s e fuel, Nlen pre = ipos -> (length bs <= fuel)%nat ->
+          let hit := filter (fun p => zsec_hit q s e (fst p)) (combine rsecs secs) in
+          search_bytes fuel false (pre ++ bs ++ post) (ipos + 48) q s e
+            = Ok (map (fun p => (s_off (snd p), s_size (snd p))) hit)
+          /\ flat_map (fun p => filter (zkeep q s e) (fst p)) hit = filter (zkeep q s e) (concat rsecs)
+          /\ forall z, In z (concat rsecs) -> z_chrom z = q -> s < z_end z -> z_start z < e ->
+               exists p, In p hit /\ In z (fst p))).
+Check (C07.C07_gap_refuted_before_fix :
+  exists R, achrom_old false true ieee 10 0
+              [{| v_start := 0; v_end := 5; v_bits := one |}; {| v_start := 20; v_end := 25; v_bits := one |}] [] None
+            = Ok (R, None)
+    /\ map (fun r => (z_start r, z_end r, cov r)) R = [(0, 5, 5); (10, 20, 10); (20, 25, 5)]).
+Check (C07.C07_minmax_refuted_before_fix :
+  exists R, achrom_old true false ieee 10 0
+              [{| v_start := 0; v_end := 5; v_bits := one |}; {| v_start := 10; v_end := 15; v_bits := hundred |}] [] None
+            = Ok (R, None)
+    /\ map (fun r => (z_start r, z_end r, cov r, su_items (z_sum r), bits_of_f64 (su_max (z_sum r)))) R
+       = [(0, 10, 5, 2, bits_of_f64 (f32_of_bits hundred)); (10, 15, 5, 1, bits_of_f64 (f32_of_bits hundred))]).
